@@ -258,6 +258,7 @@ struct Stats {
     rt_params: usize,
     for_desugared: usize,
     letchain_unfolded: usize,
+    optmap_inlined: usize,
 }
 
 struct OpRewriter<'a> {
@@ -409,6 +410,52 @@ impl<'a> VisitMut for LetChain<'a> {
                 }
                 self.stats.letchain_unfolded += 1;
                 *e = acc;
+            }
+        }
+    }
+}
+
+/// R10: `X.map(|p| B).unwrap_or(D)` → `match X { Some(p) => B, None => D }` (opt-in; a non-Option receiver makes the
+/// generated file fail to compile → UNDECIDED). B must not contain `return` or `?` (their meaning would change).
+struct OptMapInline<'a> {
+    stats: &'a mut Stats,
+}
+struct HasEscape(bool);
+impl<'ast> Visit<'ast> for HasEscape {
+    fn visit_expr_return(&mut self, _: &'ast syn::ExprReturn) {
+        self.0 = true;
+    }
+    fn visit_expr_try(&mut self, _: &'ast syn::ExprTry) {
+        self.0 = true;
+    }
+}
+impl<'a> VisitMut for OptMapInline<'a> {
+    fn visit_expr_mut(&mut self, e: &mut syn::Expr) {
+        syn::visit_mut::visit_expr_mut(self, e);
+        if let syn::Expr::MethodCall(outer) = e {
+            if outer.method == "unwrap_or" && outer.args.len() == 1 {
+                if let syn::Expr::MethodCall(inner) = &*outer.receiver {
+                    if inner.method == "map" && inner.args.len() == 1 {
+                        if let syn::Expr::Closure(c) = &inner.args[0] {
+                            if c.inputs.len() == 1 {
+                                let mut he = HasEscape(false);
+                                he.visit_expr(&c.body);
+                                if he.0 {
+                                    die("R10: closure body contains return/? — cannot inline");
+                                }
+                                let x = &inner.receiver;
+                                let p = match &c.inputs[0] {
+                                    syn::Pat::Type(pt) => (*pt.pat).clone(),
+                                    other => other.clone(),
+                                };
+                                let b = &c.body;
+                                let d = &outer.args[0];
+                                self.stats.optmap_inlined += 1;
+                                *e = syn::parse_quote!(match #x { Some(#p) => #b, None => #d });
+                            }
+                        }
+                    }
+                }
             }
         }
     }
@@ -771,6 +818,11 @@ fn emit_fn(ctx: &mut Ctx, d: &FnDir, out: &mut String) {
         ForDesugar { stats: &mut stats, which, next: 0 }.visit_block_mut(&mut block);
     }
 
+    // ---- R10 (opt-in)
+    if d.opts.contains_key("r10") {
+        OptMapInline { stats: &mut stats }.visit_block_mut(&mut block);
+    }
+
     // ---- R1
     let ops_enabled = d.opts.get("ops").map(|s| s != "keep").unwrap_or(true);
     OpRewriter { stats: &mut stats, enabled: ops_enabled }.visit_block_mut(&mut block);
@@ -989,7 +1041,7 @@ fn emit_fn(ctx: &mut Ctx, d: &FnDir, out: &mut String) {
     let (nreq, nens) = count_clauses(&d.spec);
     let ninv: usize = d.loops.values().map(|s| count_clauses(&s.replace("invariant", "ensures")).1).sum();
     let rep = format!(
-        "{{\"kind\":\"fn\",\"name\":{},\"file\":{},\"item\":{},\"closure\":{},\"src_lines\":[{},{}],\"src_hash\":\"{:016x}\",\"attrs_dropped\":{},\"rewrites\":{{\"R1_binops\":{},\"R1_neg\":{},\"R2_rt_params\":{},\"R3_tx_lifted\":{},\"R5_letchains\":{},\"R6_for_desugared\":{},\"loops\":{},\"substitutions\":[{}]}},\"clauses\":{{\"requires\":{},\"ensures\":{},\"invariants\":{}}},\"novac\":{}}}",
+        "{{\"kind\":\"fn\",\"name\":{},\"file\":{},\"item\":{},\"closure\":{},\"src_lines\":[{},{}],\"src_hash\":\"{:016x}\",\"attrs_dropped\":{},\"rewrites\":{{\"R1_binops\":{},\"R1_neg\":{},\"R2_rt_params\":{},\"R3_tx_lifted\":{},\"R5_letchains\":{},\"R6_for_desugared\":{},\"R10_optmap_inlined\":{},\"loops\":{},\"substitutions\":[{}]}},\"clauses\":{{\"requires\":{},\"ensures\":{},\"invariants\":{}}},\"novac\":{}}}",
         json_str(&qual),
         json_str(&d.file),
         json_str(&d.path),
@@ -1004,6 +1056,7 @@ fn emit_fn(ctx: &mut Ctx, d: &FnDir, out: &mut String) {
         stats.tx_lifted,
         stats.letchain_unfolded,
         stats.for_desugared,
+        stats.optmap_inlined,
         stats.loops,
         subs_done.iter().map(|s| json_str(s)).collect::<Vec<_>>().join(","),
         nreq,
